@@ -272,6 +272,23 @@ def run(prog, rep):
                             locs = {tt.id for s in walk_no_nested(f.node) if isinstance(s, ast.Assign) for tt in s.targets if isinstance(tt, ast.Name)}
                             if t.value.id not in locs:
                                 bad = (f, x, f"module-level `{t.value.id}` is written")
+        # a module-level mutable object installed as instance state (`self.x = _SHARED`), and state stored on a CLASS from inside a
+        # function (`Data3D.links = ..`, `cls.cache = ..`): one object / one slot for every instance of the process
+        if not bad:
+            for f in list(m.functions.values()) + [x for c in m.classes.values() for x in c.all_funcs()]:
+                locs = {t.id for s_ in ast.walk(f.node) for t in ast.walk(s_) if isinstance(t, ast.Name) and isinstance(t.ctx, ast.Store)} | {a.arg for a in f.node.args.args + f.node.args.kwonlyargs}
+                for x in walk_no_nested(f.node):
+                    if isinstance(x, (ast.Assign, ast.AnnAssign, ast.AugAssign)) and getattr(x, "value", None) is not None:
+                        for t in (x.targets if isinstance(x, ast.Assign) else [x.target]):
+                            if isinstance(t, ast.Attribute) and isinstance(t.value, ast.Name):
+                                vals = [x.value] + (list(x.value.values) if isinstance(x.value, ast.BoolOp) else []) + ([x.value.body, x.value.orelse] if isinstance(x.value, ast.IfExp) else [])
+                                for v_ in vals:
+                                    if isinstance(v_, ast.Name) and v_.id not in locs and v_.id in m.assigns and is_mutable_display(m.assigns[v_.id]) and t.value.id not in m.assigns:
+                                        bad = (f, x, f"`{norm(head(x))}` makes the module-level object `{v_.id}` (= {norm(m.assigns[v_.id])}) part of an instance")
+                                base_cls = prog.resolve_class(m, t.value.id) if t.value.id not in locs else None
+                                is_clsparam = t.value.id == "cls" and any(norm(d) == "classmethod" for d in f.node.decorator_list)
+                                if (base_cls is not None and not prog.is_enum(base_cls)) or is_clsparam:
+                                    bad = (f, x, f"`{norm(head(x))[:70]}` stores on the class `{t.value.id}`, not on an instance")
         # module-level stateful objects (iterators, counters, generators, deques): consuming one inside a function is shared state
         stateful = {}
         for name_, v_ in m.assigns.items():
